@@ -169,7 +169,9 @@ class Ctx:
 
     def coqc(self, vfile, timeout=600):
         path = os.path.join(self.build, vfile)
-        cmd = ["timeout", str(timeout), "coqc", "-Q", COQ, "NQ", "-Q", self.build, "Gen", path]
+        # memory cap (a runaway vm_compute, e.g. a huge unary nat, must not take the machine down)
+        cmd = ["bash", "-c", "ulimit -v 25000000; exec timeout %d coqc -Q %s NQ -Q %s Gen %s"
+               % (timeout, COQ, self.build, path)]
         r = subprocess.run(cmd, capture_output=True, text=True, cwd=self.build)
         self.checker_cmds.append("coqc -Q coq NQ -Q build/%s Gen %s" % (self.id, vfile))
         return CoqResult(r.returncode == 0, r.stdout, r.stderr, path)
@@ -309,7 +311,7 @@ class Ctx:
                 real.append(v)
         # a broken obligation with no concrete violation recorded is itself a violation
         undis = [n for n, ok in self.obligations if not ok]
-        if (undis or self.broken) and not self.violations:
+        if (undis or self.broken) and not real:
             self.violation("obligation no longer checks: " + "; ".join(self.broken or undis),
                            dict(broken=self.broken, undischarged=undis), key=None, found_input=False)
             real.append(self.violations[-1])
